@@ -29,6 +29,10 @@ def run(rep, tier):
     intersection_rule(rep, F)
     best_of_two(rep, F)
     interior_point(rep, F)
+    # "Intersection(p) exactly when p intersects g": the point-in-geometry kernels that closest_point's guard resolves to (tables shared with C02)
+    from . import c02_kernels, c02_linear
+    c02_kernels.run(rep, F, tier, only={"Triangle∩Coord", "Line∩Coord", "Rect∩Coord", "ring-step", "polygon-composition"}, rule="R12.4")
+    c02_linear.run(rep, F, tier, rule="R12.4")
 
 
 def intersection_rule(rep, F):
